@@ -11,7 +11,7 @@ trap 'git -C /repo worktree remove --force "$W" >/dev/null 2>&1; rm -rf "$W"' EX
 P="$SRC/patch.diff"; [ -f "$SRC/patch.rebased.diff" ] && P="$SRC/patch.rebased.diff"
 cd "$W"
 if git apply "$P" 2>/dev/null; then :; elif git apply --3way "$P" >/dev/null 2>&1; then :; else echo "RESULT $SRC patch-does-not-apply"; exit 1; fi
-git diff HEAD > /var/tmp/conf-$$.diff; git reset -q
+git add -N . >/dev/null 2>&1; git diff HEAD > /var/tmp/conf-$$.diff; git reset -q
 go build ./... >/dev/null 2>&1 || { echo "RESULT $SRC build-fails"; exit 1; }
 SUITE=$(go test -vet=off -count=1 -timeout 25m ./... 2>&1 | grep -c "^FAIL")
 [ "$SUITE" = 0 ] || { echo "RESULT $SRC existing-suite-fails-with-change"; exit 1; }
